@@ -180,19 +180,34 @@ Fixpoint fresh_handles (s : sdk) (n : nat) : res (sdk * list nat) :=
            end
   end.
 
-(* NV, not sequential: pair i ends in ID n-1-i; IDs other than 0 are allocated
-   and initialised up front and must be unused (assert) *)
-Fixpoint nv_handles (s : sdk) (n : nat) : res (sdk * list nat) :=
-  match n with
-  | 0 => inl (s, [])
-  | S m =>  (* final_id = m *)
-      if (negb (m =? 0)) && mem m (ids s) then inr ErrReject
-      else
-        let s1 := if m =? 0 then s else emit s [EAlloc m; EUse [m]] in
-        match nv_handles (add_handle s1 m) m with
-        | inl (s', vs) => inl (s', m :: vs)
-        | inr e => inr e
-        end
+(* NV, not sequential: the last pair stays in ID 0; the others end in memory qubits
+   with the lowest unused IDs other than 0, highest first (n-1 .. 1 when nothing is in the
+   way).  pick_ids: those IDs in increasing order (each is the lowest ID that is neither
+   0 nor in use nor picked before). *)
+Fixpoint pick_ids (l : list nat) (m : nat) : option (list nat) :=
+  match m with
+  | 0 => Some []
+  | S m' => match new_id (0 :: l) with
+            | None => None
+            | Some v => match pick_ids (v :: l) m' with
+                        | None => None
+                        | Some r => Some (v :: r)
+                        end
+            end
+  end.
+
+(* Qubit(conn, add_new_command=True, virtual_address=v): qalloc, init, a new host handle *)
+Fixpoint alloc_handles (s : sdk) (vs : list nat) : sdk :=
+  match vs with
+  | [] => s
+  | v :: r => alloc_handles (add_handle (emit s [EAlloc v; EUse [v]]) v) r
+  end.
+
+Definition nv_handles (s : sdk) (n : nat) : res (sdk * list nat) :=
+  match pick_ids (ids s) (n - 1) with
+  | None => inr ErrFuel
+  | Some asc => let mems := rev asc in
+                inl (add_handle (alloc_handles s mems) 0, mems ++ [0])
   end.
 
 (* _create_ent_qubits.  Every EPR operation appends commands after this, so an
@@ -306,6 +321,12 @@ Definition pre_measure (k : cfg) (s : sdk) (v : nat) : res sdk :=
    through the electron: virtual qubit 0 is addressed first *)
 Definition gate2_uses (k : cfg) (a b : nat) : list nat :=
   if transp k && negb (a =? 0) && negb (b =? 0) then [0; a; b] else [a; b].
+(* _build_cmds_two_qubit: if no active qubit has ID 0 the builder reserves the electron
+   around such a gate (qalloc + init before, qfree after) *)
+Definition gate2_events (k : cfg) (l : list nat) (a b : nat) : list event :=
+  if transp k && negb (a =? 0) && negb (b =? 0) && negb (mem 0 l)
+  then [EAlloc 0; EUse [0]; EUse [0; a; b]; EFree 0]
+  else [EUse (gate2_uses k a b)].
 
 (* one host operation other than Flush *)
 Definition sdk_step (k : cfg) (s : sdk) (o : op) : res sdk :=
@@ -323,7 +344,7 @@ Definition sdk_step (k : cfg) (s : sdk) (o : op) : res sdk :=
       end
   | Gate2 h1 h2 =>
       match id_of h1 (active s), id_of h2 (active s) with
-      | Some a, Some b => inl (emit s [EUse (gate2_uses k a b)])
+      | Some a, Some b => inl (emit s (gate2_events k (ids s) a b))
       | _, _ => inr ErrDeadHandle
       end
   | MeasureInplace h =>
@@ -469,7 +490,8 @@ Definition in_budget (k : cfg) (s : sdk) (o : op) : bool :=
   | NewQubit => length (active s) + 1 <=? budget k
   | Gate1 h | MeasureInplace h | MeasureDestructive h | Free h => live s h
   | Gate2 h1 h2 => live s h1 && live s h2 && negb (h1 =? h2)
-  | EprKeep n _ _ _ => (1 <=? n) && (length (active s) + n <=? budget k)
+    (* sequential=True without a post routine: the API refuses more than one pair *)
+  | EprKeep n _ sq _ => (1 <=? n) && (length (active s) + n <=? budget k) && (negb sq || (n =? 1))
     (* a block that keeps its qubit: legal for several pairs only when each pair has its own ID *)
   | EprContext n _ b => (1 <=? n) && (length (active s) + n <=? budget k) &&
                         (negb (keeps b) || negb (single_comm k) || (n =? 1))
@@ -480,20 +502,6 @@ Definition in_budget (k : cfg) (s : sdk) (o : op) : bool :=
       (negb (keeps b) || (n =? 1) || (negb sq && negb (single_comm k)))
   | Flush => true
   end.
-
-(* recorded finding (input class on which the current code faults) *)
-(* C09:nv-transpiler-carbon-gate-borrows-unallocated-electron *)
-Definition hits_carbon_gate (k : cfg) (s : sdk) (o : op) : bool :=
-  match o with
-  | Gate2 h1 h2 =>
-      match id_of h1 (active s), id_of h2 (active s) with
-      | Some a, Some b => transp k && negb (a =? 0) && negb (b =? 0) && negb (mem 0 (ids s))
-      | _, _ => false
-      end
-  | _ => false
-  end.
-Definition outside_findings (k : cfg) (s : sdk) (o : op) : bool :=
-  negb (hits_carbon_gate k s o).
 
 (* a predicate holds before every operation of the program (states follow the
    SDK model; the walk ends where the SDK refuses an operation) *)
@@ -511,13 +519,13 @@ Fixpoint always (P : cfg -> sdk -> op -> bool) (k : cfg) (s : sdk) (ops : list o
   end.
 
 Definition within_budget (k : cfg) (ops : list op) : Prop := always in_budget k init_sdk ops = true.
-Definition avoids_findings (k : cfg) (ops : list op) : Prop := always outside_findings k init_sdk ops = true.
 
 (* ------------------------------------------------------------------ what C09 excludes *)
 Definition is_faultb (o : obs) : bool :=
   match o with
   | OFlush _ _ _ (Some _) => true     (* a flush ended in an allocation fault *)
   | OModelErr => true                 (* the model left its domain *)
+  | OReject => true                   (* the SDK refused an operation *)
   | _ => false
   end.
 Definition has_fault (l : list obs) : bool := existsb is_faultb l.
